@@ -23,6 +23,11 @@ class C20(Prop):
             for chan in suspgen.KINDS:
                 cases.append(suspgen.mk_async(chan, rng.randint(1, 3), 1))
                 if rng.random() < 0.3: cases.append(suspgen.mk_async(chan, rng.randint(1, 3), 0))
+            # the consumer as a real task (parks on Pending, re-polled only when woken), with 0..2 events already buffered when the
+            # asynchronous send starts: 'when the suspended send finally completes, its event is delivered as well' then needs the
+            # channel's wake-up.  Only on the full-sync kinds (C04: no lost wake-up there for every schedule).
+            for chan in ("uni_zero_copy_full_sync", "multi_arc_full_sync", "multi_ogre_arc_full_sync"):
+                for pre in (0, 1, 2): cases.append(suspgen.mk_async(chan, rng.randint(0, 2), 1, parked=1, pre=pre))
         out.append(Suite("channels_async", "", cases, compare=False))
         return out
     def oracle(self, case, recs):
